@@ -1122,3 +1122,220 @@ Proof.
   - specialize (Hidx KTm i eq_refl). cbn in Hidx. now apply nth_error_exists.
   - exact (Hidx KIq i eq_refl).
 Qed.
+
+(* ------------------------------------------------------------------ the boolean twin decides recipe_ok *)
+Lemma incr_below_b_spec l n : incr_below_b l n = true <-> incr_below l n.
+Proof.
+  induction l as [|a r IH]; cbn [incr_below_b incr_below]; [tauto|].
+  rewrite !andb_true_iff, Nat.ltb_lt, forallb_forall, Forall_forall, IH.
+  split.
+  - intros [[H1 H2] H3]. repeat split; auto. intros y Hy. apply Nat.ltb_lt. auto.
+  - intros (H1 & H2 & H3). repeat split; auto. intros y Hy. apply Nat.ltb_lt. auto.
+Qed.
+
+Lemma nat_mem_spec v l : nat_mem v l = true <-> In v l.
+Proof.
+  induction l as [|y r IH]; cbn [nat_mem In]; [split; [discriminate|tauto]|].
+  rewrite orb_true_iff, Nat.eqb_eq, IH. split; intros [H|H]; auto.
+Qed.
+
+Lemma nodup_b_spec l : nodup_b l = true <-> NoDup l.
+Proof.
+  induction l as [|y r IH]; cbn [nodup_b]; [split; [constructor|reflexivity]|].
+  rewrite andb_true_iff, negb_true_iff, IH. split.
+  - intros [H1 H2]. constructor; auto. intro Hin. apply nat_mem_spec in Hin. congruence.
+  - intro H. inversion H; subst. split; auto.
+    destruct (nat_mem y r) eqn:E; auto. apply nat_mem_spec in E. contradiction.
+Qed.
+
+Lemma enumerate_from_spec {A} (l : list A) : forall b i c,
+  In (i, c) (enumerate_from b l) <-> b <= i /\ nth_error l (i - b) = Some c.
+Proof.
+  induction l as [|a r IH]; intros b i c; cbn [enumerate_from In].
+  - split; [tauto|]. intros [_ H]. destruct (i - b); discriminate.
+  - rewrite IH. split.
+    + intros [H|[H1 H2]].
+      * injection H as <- <-. rewrite Nat.sub_diag. split; [lia|reflexivity].
+      * split; [lia|]. replace (i - b) with (S (i - S b)) by lia. exact H2.
+    + intros [H1 H2]. destruct (Nat.eq_dec i b) as [->|N].
+      * rewrite Nat.sub_diag in H2. left. cbn in H2. congruence.
+      * right. split; [lia|]. replace (i - b) with (S (i - S b)) in H2 by lia. exact H2.
+Qed.
+
+Lemma enumerate_spec {A} (l : list A) i c : In (i, c) (enumerate_from 0 l) <-> nth_error l i = Some c.
+Proof. rewrite enumerate_from_spec, Nat.sub_0_r. split; [tauto|]. intro H. split; [lia|exact H]. Qed.
+
+Lemma refers_to_spec tbl i k :
+  refers_to tbl i k = true <-> exists c', nth_error tbl k = Some c' /\ c_rel c' = RRef i TgComponent.
+Proof.
+  unfold refers_to. destruct (nth_error tbl k) as [c'|].
+  - destruct (c_rel c') as [rf d|j tg] eqn:E.
+    + split; [discriminate|]. intros (c'' & H & R). injection H as <-. congruence.
+    + destruct tg.
+      * rewrite Nat.eqb_eq. split.
+        -- intros ->. eauto.
+        -- intros (c'' & H & R). injection H as <-. congruence.
+      * split; [discriminate|]. intros (c'' & H & R). injection H as <-. congruence.
+      * split; [discriminate|]. intros (c'' & H & R). injection H as <-. congruence.
+  - split; [discriminate|]. intros (c'' & H & R). discriminate.
+Qed.
+
+Lemma target_eqb_spec a b : target_eqb a b = true <-> a = b.
+Proof. destruct a, b; cbn; split; congruence. Qed.
+
+Lemma rel_ok_b_spec tbl : rel_ok_b tbl = true <-> rel_ok tbl.
+Proof.
+  unfold rel_ok_b, rel_ok. rewrite forallb_forall. split.
+  - intros H i c Hn. specialize (H (i, c) (proj2 (enumerate_spec tbl i c) Hn)). cbn beta iota in H.
+    destruct (c_rel c) as [rf d|j tg].
+    + apply andb_true_iff in H as [H H3]. apply andb_true_iff in H as [H1 H2].
+      split; [now apply nodup_b_spec|]. intro k. split.
+      * intro Hin. rewrite forallb_forall in H2. apply refers_to_spec. auto.
+      * intros (c' & Hk & Hr). rewrite forallb_forall in H3.
+        specialize (H3 (k, c') (proj2 (enumerate_spec tbl k c') Hk)). cbn [fst] in H3.
+        assert (R : refers_to tbl i k = true) by (apply refers_to_spec; eauto).
+        rewrite R in H3. cbn in H3. now apply nat_mem_spec.
+    + apply andb_true_iff in H as [H1 H2]. split; [exact H1|]. intros ->. cbn in H2.
+      apply andb_true_iff in H2 as [H2 H3]. apply Nat.ltb_lt in H2. split; [exact H2|].
+      destruct (nth_error tbl j) as [d|]; [eauto|discriminate].
+  - intros H [i c] Hin. apply enumerate_spec in Hin. specialize (H i c Hin).
+    destruct (c_rel c) as [rf d|j tg].
+    + destruct H as [ND Hiff]. rewrite !andb_true_iff. repeat split.
+      * now apply nodup_b_spec.
+      * apply forallb_forall. intros k Hk. apply refers_to_spec. now apply Hiff.
+      * apply forallb_forall. intros [k c'] Hk. cbn [fst].
+        destruct (refers_to tbl i k) eqn:R; [|reflexivity]. cbn.
+        apply nat_mem_spec. apply Hiff. now apply refers_to_spec.
+    + destruct H as [M Ht]. rewrite M. cbn [andb]. destruct tg; cbn [target_eqb negb orb]; auto.
+      destruct (Ht eq_refl) as (L & d & Hd & Hdd). rewrite Hd, Hdd.
+      apply Nat.ltb_lt in L. now rewrite L.
+Qed.
+
+Lemma occ_ok_b_spec ings o : occ_ok_b ings o = true <-> occ_ok ings o.
+Proof.
+  unfold occ_ok_b, occ_ok. destruct (o_item o) as [ |i| | | ]; try (split; auto; fail).
+  destruct (nth_error ings i) as [c|].
+  - split.
+    + intros H c' E. injection E as <-. destruct (rel_kind c) as [[j tg]|]; auto. destruct tg; auto.
+      * destruct (nth_error (o_prev o) j) as [[st|t]|]; try discriminate. eauto.
+      * now apply Nat.ltb_lt.
+    + intro H. specialize (H c eq_refl). destruct (rel_kind c) as [[j tg]|]; auto. destruct tg; auto.
+      * destruct H as [st ->]. reflexivity.
+      * now apply Nat.ltb_lt.
+  - split; auto. intros _ c E. discriminate.
+Qed.
+
+Lemma list_nat_eqb_spec a : forall b, list_nat_eqb a b = true <-> a = b.
+Proof.
+  induction a as [|v a IH]; intros [|y b]; cbn [list_nat_eqb]; try (split; congruence).
+  rewrite andb_true_iff, Nat.eqb_eq, IH. split; [intros [-> ->]; reflexivity|]. intro H. injection H. auto.
+Qed.
+
+Lemma is_nil_spec {A} (l : list A) : negb (is_nil l) = true <-> l <> [].
+Proof. destruct l; cbn; split; congruence. Qed.
+
+Lemma item_nonempty_b_spec it : item_nonempty_b it = true <-> item_nonempty it.
+Proof. destruct it; cbn [item_nonempty_b item_nonempty]; try tauto. apply is_nil_spec. Qed.
+
+Lemma forallb_Forall_iff {A} (f : A -> bool) (P : A -> Prop) l :
+  (forall a, f a = true <-> P a) -> (forallb f l = true <-> Forall P l).
+Proof.
+  intro H. rewrite forallb_forall, Forall_forall. split; intros G a Ha; apply H; auto.
+Qed.
+
+Lemma content_nonempty_b_spec c : content_nonempty_b c = true <-> content_nonempty c.
+Proof.
+  destruct c as [st|t]; cbn [content_nonempty_b content_nonempty].
+  - rewrite andb_true_iff, is_nil_spec, (forallb_Forall_iff _ _ _ item_nonempty_b_spec). tauto.
+  - apply is_nil_spec.
+Qed.
+
+Lemma section_ok_b_spec s : section_ok_b s = true <-> section_ok s.
+Proof.
+  unfold section_ok_b, section_ok, numbered.
+  rewrite andb_true_iff, list_nat_eqb_spec, (forallb_Forall_iff _ _ _ content_nonempty_b_spec). tauto.
+Qed.
+
+Lemma timer_ok_b_spec t : timer_ok_b t = true <-> timer_ok t.
+Proof.
+  unfold timer_ok_b, timer_ok. destruct (tm_name t), (tm_qty t); cbn; split; auto;
+    try (intros _; left; discriminate); try (intros _; right; discriminate).
+  - discriminate.
+  - intros [H|H]; congruence.
+Qed.
+
+Theorem recipe_ok_b_spec r : recipe_ok_b r = true <-> recipe_ok r.
+Proof.
+  unfold recipe_ok_b. rewrite !andb_true_iff.
+  rewrite !rel_ok_b_spec.
+  rewrite (forallb_Forall_iff _ _ _ (occ_ok_b_spec (r_ingredients r))).
+  rewrite (forallb_Forall_iff _ _ _ section_ok_b_spec).
+  rewrite (forallb_Forall_iff _ _ _ timer_ok_b_spec).
+  rewrite (forallb_Forall_iff (fun s => negb (section_is_empty s)) (fun s => section_is_empty s = false)
+             (r_sections r) (fun s => negb_true_iff (section_is_empty s))).
+  split.
+  - intros [[[[[[H1 H2] H3] H4] H5] H6] H7]. constructor; auto.
+    intro k. apply incr_below_b_spec. rewrite forallb_forall in H1. apply H1.
+    destruct k; cbn; auto.
+  - intros [H1 H2 H3 H4 H5 H6 H7]. repeat split; auto.
+    apply forallb_forall. intros k _. apply incr_below_b_spec. apply H1.
+Qed.
+
+Section ValidB.
+Variable ci_key : str -> str.
+
+Lemma valid_tbl_b_spec tbl : valid_tbl_b ci_key tbl = true <-> valid_tbl ci_key tbl.
+Proof.
+  unfold valid_tbl_b, valid_tbl. rewrite forallb_forall. split.
+  - intros H i c Hn. specialize (H c (nth_error_In _ _ Hn)).
+    apply andb_true_iff in H as [H1 H2]. apply Bool.eqb_prop in H1. split; [exact H1|].
+    intros j Hr. rewrite Hr in H2. destruct (nth_error tbl j) as [d|]; [|discriminate].
+    exists d. split; auto. now apply str_eqb_eq.
+  - intros H c Hin. apply In_nth_error in Hin as [i Hn]. destruct (H i c Hn) as [H1 H2].
+    apply andb_true_iff. split; [rewrite H1; apply Bool.eqb_reflx|].
+    destruct (c_rel c) as [rf d|j tg]; auto. destruct tg; auto.
+    destruct (H2 j eq_refl) as (d & Hd & K). rewrite Hd. now apply str_eqb_eq.
+Qed.
+
+End ValidB.
+
+(* each clause of the statement can fail: recipes the predicate rejects *)
+Definition bad_comp (m : modifiers) (rel : relation) : component :=
+  {| c_name := [97%N]; c_alias := None; c_qty := None; c_note := None; c_rref := false;
+     c_mods := m; c_rel := rel |}.
+Definition bad_recipe (items : list item) (number : nat) (ings : list component) (tms : list rtimer) : recipe :=
+  {| r_sections := [{| sec_name := None;
+                       sec_content := [CStep {| st_items := items; st_number := number |}] |}];
+     r_ingredients := ings; r_cookware := []; r_timers := tms; r_inline := 0 |}.
+
+Example recipe_ok_sensitive :
+  (* a well-formed one *)
+  recipe_ok (bad_recipe [IIngredient 0; IText [32%N]; IIngredient 1] 1
+               [bad_comp mods_empty (RDef [1] true); bad_comp M_ref_only (RRef 0 TgComponent)] []) /\
+  (* index out of range *)
+  ~ recipe_ok (bad_recipe [IIngredient 0] 1 [] []) /\
+  (* out of document order *)
+  ~ recipe_ok (bad_recipe [IIngredient 1; IIngredient 0] 1
+                 [bad_comp mods_empty (RDef [] true); bad_comp mods_empty (RDef [] true)] []) /\
+  (* no back link *)
+  ~ recipe_ok (bad_recipe [IIngredient 0; IIngredient 1] 1
+                 [bad_comp mods_empty (RDef [] true); bad_comp M_ref_only (RRef 0 TgComponent)] []) /\
+  (* back link listed twice *)
+  ~ recipe_ok (bad_recipe [IIngredient 0; IIngredient 1] 1
+                 [bad_comp mods_empty (RDef [1; 1] true); bad_comp M_ref_only (RRef 0 TgComponent)] []) /\
+  (* reference to a reference *)
+  ~ recipe_ok (bad_recipe [IIngredient 0; IIngredient 1; IIngredient 2] 1
+                 [bad_comp mods_empty (RDef [1] true); bad_comp M_ref_only (RRef 0 TgComponent);
+                  bad_comp M_ref_only (RRef 1 TgComponent)] []) /\
+  (* step reference to the step itself / section reference to the section itself *)
+  ~ recipe_ok (bad_recipe [IIngredient 0] 1 [bad_comp M_ref_only (RRef 0 TgStep)] []) /\
+  ~ recipe_ok (bad_recipe [IIngredient 0] 1 [bad_comp M_ref_only (RRef 0 TgSection)] []) /\
+  (* wrong step number, empty step, empty text item, timer without name and quantity *)
+  ~ recipe_ok (bad_recipe [IText [32%N]] 2 [] []) /\
+  ~ recipe_ok (bad_recipe [] 1 [] []) /\
+  ~ recipe_ok (bad_recipe [IText []] 1 [] []) /\
+  ~ recipe_ok (bad_recipe [ITimer 0] 1 [] [{| tm_name := None; tm_qty := None |}]).
+Proof.
+  split; [apply recipe_ok_b_spec; vm_compute; reflexivity|].
+  repeat split; intro H; apply recipe_ok_b_spec in H; vm_compute in H; discriminate.
+Qed.
